@@ -3,6 +3,9 @@ import Proofs.TsigRfc
 import Proofs.TsigDigest
 import Proofs.TsigValidate
 import Proofs.TsigExchange
+import Proofs.TsigReader
+import Proofs.TsigInject
+import Proofs.TsigFlip
 /-!
 # C14 — TSIG MACs follow RFC 8945; genuine messages verify, altered ones never do
 
@@ -103,29 +106,6 @@ theorem sign_later_input (H : Hmac) (tbl : List AlgEntry) (wire : Bytes) (key : 
     exact ⟨c, digest_later_data tbl wire key rd (some time) rm c0 c hd, rfl, rfl, c3, hc3, hd3⟩
 
 /-! ## every signed message validates under the same key -/
-
-theorem lookupAlg_mem (tbl : List AlgEntry) (e : AlgEntry) (he : e ∈ tbl) : ∃ e', lookupAlg tbl e.name = some e' := by
-  unfold lookupAlg
-  have : (tbl.find? fun x => nameEq x.name e.name).isSome = true := by
-    rw [List.find?_isSome]
-    exact ⟨e, he, nameEq_refl e.name⟩
-  exact Option.isSome_iff_exists.mp this
-
-theorem digest_congr (tbl : List AlgEntry) (wire : Bytes) (key : Key) (rd rd' : Rdata) (t : Nat) (rm : Bytes)
-    (ctx : Option Ctx) (multi : Bool)
-    (h1 : rd'.originalId = rd.originalId) (h2 : rd'.fudge = rd.fudge) (h3 : rd'.error = rd.error)
-    (h4 : rd'.other = rd.other) (h5 : rd'.timeSigned = t) :
-    digest tbl wire key rd' none rm ctx multi = digest tbl wire key rd (some t) rm ctx multi := by
-  unfold digest
-  simp [h1, h2, h3, h4, h5]
-
-theorem rd16_appendTsig (body o : Bytes) (rd : Rdata) (hl : 12 ≤ body.length) (hc : rd16 body 10 + 1 < 65536) :
-    rd16 (appendTsig body o rd) 10 = rd16 body 10 + 1 := by
-  unfold appendTsig setArcount
-  have hlen : (List.take 10 (body ++ tsigRR o rd)).length = 10 := by simp; omega
-  have := rd16_u16 (rd16 body 10 + 1) hc (List.take 10 (body ++ tsigRR o rd)) (List.drop 12 (body ++ tsigRR o rd))
-  rw [hlen] at this
-  exact this
 
 /-- "every signed message validates under the same key", "for every supported algorithm": for every row of the
 regenerated table, signing succeeds, and the message `Message.to_wire` then emits (body, TSIG RR appended,
@@ -294,6 +274,170 @@ theorem request_mac_binding_rejects (H : Hmac) (tbl : List AlgEntry) (wire : Byt
       exact hdiff (hcf c1 c2 hsame.1 hsame.2.1 hsame.2.2 (by rw [heq, hmac]))
     simp [this]
 
+/-! ## the reader: what acceptance means, and what an alteration can and cannot do -/
+
+/-- "every message whose authenticated content was altered": **acceptance is sound.**  If the reader returns a
+message as signed (key `k`, stand-alone message), then the TSIG RR is the last record of the additional section
+(found at `s` by the section walk, class ANY, ending the message), its error field is 0, the time is within the
+fudge window, owner and algorithm equal the key's, and the MAC in the record is the (truncated) HMAC of exactly
+the RFC 8945 digest components *of the received message*. -/
+theorem accepted_carries_valid_mac (H : Hmac) (tbl : List AlgEntry) (strict : Bool) (w : Bytes) (k : Key) (now : Nat)
+    (rm : Bytes) (r : ReadOk) (f : Found)
+    (h : read H tbl strict w (.key k) now rm none false = .ok r) (hf : r.tsig = some f) :
+    ∃ s c, walkTo w = some s ∧ f.checked = some (c, f.rd.mac) ∧ c.sign H = f.rd.mac
+      ∧ c.data = (if rm = [] then requestInput f.rd.originalId (stripTsig w s) (varsOf k f.rd none)
+                  else responseInput rm f.rd.originalId (stripTsig w s) (varsOf k f.rd none))
+      ∧ f.rd.error = 0 ∧ absDiff f.rd.timeSigned now ≤ f.rd.fudge
+      ∧ nameEq k.name f.owner = true ∧ nameEq k.algorithm f.rd.algorithm = true := by
+  obtain ⟨s, p, owner, rd, c, c', hfe, _, a, _⟩ :=
+    accepted_of_read (verifyWith H) tbl strict w k now rm none false r f h hf
+  subst hfe
+  obtain ⟨_, he, ht, hn, ha, _, hv, _⟩ := validateV_ok _ tbl w k owner rd now rm s none false c c' a.valid
+  obtain ⟨hdat, _⟩ := validate_digests_stripped_message _ tbl w k owner rd now rm s c c' a.valid
+  refine ⟨s, c, a.walk, rfl, ?_, hdat, he, ht, hn, ha⟩
+  simpa [verifyWith] using hv
+
+/-- **the MAC input determines the authenticated content** (the message is self-delimiting, so no two
+different splittings of the digested octets are possible).  Two messages accepted as signed under the same key,
+request MAC, running context and `multi`, whose MAC inputs are the same octet string, have their TSIG RR at the
+same offset `s`, agree on *every octet from 2 to `s`* (all of the message but its ID, which RFC 8945 replaces by
+the original ID), and on original ID, time signed and fudge; stand-alone / first messages also on error and
+other data. -/
+theorem mac_input_determines_content (V1 V2 : Verifier) (tbl : List AlgEntry) (st1 st2 : Bool) (w1 w2 : Bytes) (k : Key)
+    (now1 now2 : Nat) (rm : Bytes) (ctx : Option Ctx) (multi : Bool) (r1 r2 : ReadOk) (f1 f2 : Found) (c1 c2 : Ctx)
+    (m1 m2 : Bytes) (ho1 : OctetsOk w1) (ho2 : OctetsOk w2)
+    (h1 : readV V1 tbl st1 w1 (.key k) now1 rm ctx multi = .ok r1) (hf1 : r1.tsig = some f1)
+    (h2 : readV V2 tbl st2 w2 (.key k) now2 rm ctx multi = .ok r2) (hf2 : r2.tsig = some f2)
+    (hc1 : f1.checked = some (c1, m1)) (hc2 : f2.checked = some (c2, m2)) (hd : c1.data = c2.data) :
+    ∃ s, walkTo w1 = some s ∧ walkTo w2 = some s ∧ (∀ i, 2 ≤ i → i < s → w1[i]? = w2[i]?)
+      ∧ f1.rd.originalId = f2.rd.originalId ∧ f1.rd.timeSigned = f2.rd.timeSigned ∧ f1.rd.fudge = f2.rd.fudge
+      ∧ ((multi = false ∨ ctx = none) → f1.rd.error = f2.rd.error ∧ f1.rd.other = f2.rd.other) := by
+  obtain ⟨s1, p1, o1, rd1, c1', x1, e1, _, a1, _⟩ := accepted_of_read V1 tbl st1 w1 k now1 rm ctx multi r1 f1 h1 hf1
+  obtain ⟨s2, p2, o2, rd2, c2', x2, e2, _, a2, _⟩ := accepted_of_read V2 tbl st2 w2 k now2 rm ctx multi r2 f2 h2 hf2
+  subst e1; subst e2
+  simp only [Option.some.injEq, Prod.mk.injEq] at hc1 hc2
+  obtain ⟨rfl, _⟩ := hc1
+  obtain ⟨rfl, _⟩ := hc2
+  obtain ⟨hs, hb, r⟩ := same_input_same_content V1 V2 tbl w1 w2 k now1 now2 rm ctx multi s1 s2 p1 p2 o1 o2 rd1 rd2
+    c1' c2' x1 x2 ho1 ho2 a1 a2 hd
+  subst hs
+  exact ⟨s1, a1.walk, a2.walk, hb, r⟩
+
+/-- "rejects any single-bit alteration of authenticated content": **every single-bit alteration is rejected by
+parsing / a check, or changes the (MAC input, MAC) pair** — unless the bit lies in the message ID, in the owner
+name of the TSIG RR (`s`…`p`), in the algorithm name (from `p+10` up to the fixed-layout tail of the RDATA) or,
+as shipped (`strict = false`), in the 4 TTL octets `p+4`…`p+7` of the TSIG RR.  Stated contrapositively: if the
+genuine message and the message with bit `i` flipped are both returned as signed, then the pairs differ or `i`
+is in one of those places.  (ID and name *case* are not authenticated by RFC 8945; the TTL is — that disjunct
+is the recorded finding and disappears for `strict = true`.) -/
+theorem bitflip_changes_input (V V' : Verifier) (tbl : List AlgEntry) (strict : Bool) (w : Bytes) (k : Key) (now now' : Nat)
+    (rm : Bytes) (ctx : Option Ctx) (multi : Bool) (r r' : ReadOk) (f f' : Found) (i : Nat)
+    (ho : OctetsOk w) (hi : i < 8 * w.length) (hfirst : multi = false ∨ ctx = none)
+    (h : readV V tbl strict w (.key k) now rm ctx multi = .ok r) (hf : r.tsig = some f)
+    (h' : readV V' tbl strict (flipBit w i) (.key k) now' rm ctx multi = .ok r') (hf' : r'.tsig = some f') :
+    ∃ s p c c', walkTo w = some s ∧ skipName w w.length (w.length + 1) s = some p
+      ∧ f.checked = some (c, f.rd.mac) ∧ f'.checked = some (c', f'.rd.mac)
+      ∧ ((c'.data ≠ c.data ∨ f'.rd.mac ≠ f.rd.mac)
+          ∨ i < 16 ∨ (8 * s ≤ i ∧ i < 8 * p)
+          ∨ (strict = false ∧ 8 * (p + 4) ≤ i ∧ i < 8 * (p + 8))
+          ∨ (8 * (p + 10) ≤ i ∧ i / 8 + (tsigTail f.rd).length < w.length)) := by
+  obtain ⟨s, p, o, rd, c, c1, e, _, a, hst⟩ := accepted_of_read V tbl strict w k now rm ctx multi r f h hf
+  obtain ⟨s', p', o', rd', c', c1', e', _, a', hst'⟩ := accepted_of_read V' tbl strict (flipBit w i) k now' rm ctx multi r' f' h' hf'
+  subst e; subst e'
+  refine ⟨s, p, c, c', a.walk, a.name, rfl, rfl, ?_⟩
+  dsimp only
+  by_cases hpair : c'.data = c.data ∧ rd'.mac = rd.mac
+  · right
+    have hi8 : i / 8 < w.length := by omega
+    rcases flip_same_pair_location V V' tbl w k now now' rm ctx multi s p s' p' o o' rd rd' c c' c1 c1' i ho hi8 hfirst
+      a a' hpair.1 hpair.2 with h1 | h1 | h1 | h1
+    · left; omega
+    · right; left; omega
+    · right; right; left
+      obtain ⟨hpp, hlo, hhi⟩ := h1
+      refine ⟨?_, by omega, by omega⟩
+      cases hs : strict with
+      | false => rfl
+      | true =>
+        exfalso
+        have hb := skipName_bounds _ _ _ _ _ a.name
+        have hh := a.hdr
+        exact flip_ttl_excluded w i p ho (by omega) (hst hs) (by rw [← hpp]; exact hst' hs) ⟨hlo, hhi⟩
+    · right; right; right; omega
+  · left
+    by_cases hd : c'.data = c.data
+    · right; intro hm; exact hpair ⟨hd, hm⟩
+    · left; exact hd
+
+/-- the consequence under an explicit unforgeability hypothesis about the external HMAC (never an axiom):
+suppose that, among contexts keyed with `k`'s secret, only the genuine (input, MAC) pair verifies.  Then *every*
+single-bit alteration outside the message ID, the TSIG owner name and the algorithm name — and, for the code as
+shipped (`strict = false`), outside the TTL field of the TSIG RR: this is the explicit guard that makes the
+statement `_partial` — is rejected or comes back as an unsigned message.
+
+Full statement (what the property demands, true of the `strict = true` variant, see `altered_bit_rejected`):
+the same without the TTL guard.  It is false as shipped: `ttl_bit_accepted_asShipped`. -/
+theorem altered_bit_rejected_partial (strict : Bool) (H : Hmac) (tbl : List AlgEntry) (w : Bytes) (k : Key) (now now' : Nat) (rm : Bytes)
+    (r : ReadOk) (f : Found) (c : Ctx) (i s p : Nat) (ho : OctetsOk w) (hi : i < 8 * w.length)
+    (h : read H tbl strict w (.key k) now rm none false = .ok r) (hf : r.tsig = some f)
+    (hc : f.checked = some (c, f.rd.mac)) (hs : walkTo w = some s) (hp : skipName w w.length (w.length + 1) s = some p)
+    (hunf : ∀ (c' : Ctx) (m' : Bytes), c'.secret = k.secret → verifyWith H c' m' = true → c'.data = c.data ∧ m' = f.rd.mac)
+    (hbit : 16 ≤ i ∧ ¬ (8 * s ≤ i ∧ i < 8 * p) ∧ ¬ (8 * (p + 10) ≤ i ∧ i / 8 + (tsigTail f.rd).length < w.length))
+    (hguard : strict = false → ¬ (8 * (p + 4) ≤ i ∧ i < 8 * (p + 8))) :
+    ∀ r', read H tbl strict (flipBit w i) (.key k) now' rm none false = .ok r' → r'.tsig = none := by
+  intro r' h'
+  cases hf' : r'.tsig with
+  | none => rfl
+  | some f' =>
+    exfalso
+    obtain ⟨s0, p0, c0, c', hs0, hp0, hc0, hc', hcase⟩ :=
+      bitflip_changes_input (verifyWith H) (verifyWith H) tbl strict w k now now' rm none false r r' f f' i ho hi (Or.inl rfl)
+        h hf h' hf'
+    rw [hs] at hs0; cases hs0
+    rw [hp] at hp0; cases hp0
+    rw [hc] at hc0
+    simp only [Option.some.injEq, Prod.mk.injEq, and_true] at hc0
+    subst hc0
+    -- the altered message's pair verified, so it is the genuine pair
+    obtain ⟨s2, p2, o2, rd2, c2, c2', e2, _, a2, _⟩ :=
+      accepted_of_read (verifyWith H) tbl strict (flipBit w i) k now' rm none false r' f' h' hf'
+    subst e2
+    have hcc : c2 = c' := by simpa using hc'
+    rw [← hcc] at hcase
+    obtain ⟨_, _, _, _, _, hdig, hv, _⟩ := validateV_ok _ tbl _ k o2 rd2 now' rm s2 none false c2 c2' a2.valid
+    have hsec : c2.secret = k.secret := by
+      unfold digest at hdig
+      simp only [Bool.false_eq_true, if_false] at hdig
+      split at hdig; · cases hdig
+      rename_i c00 hc00
+      split at hdig; · cases hdig
+      cases hdig
+      unfold getContext at hc00
+      split at hc00
+      · cases hc00
+        by_cases hr : rm = [] <;> simp [Ctx.update, hr]
+      · cases hc00
+    obtain ⟨hd, hm⟩ := hunf c2 rd2.mac hsec hv
+    rcases hcase with h1 | h1 | h1 | h1 | h1
+    · rcases h1 with h1 | h1
+      · exact h1 hd
+      · exact h1 hm
+    · omega
+    · exact hbit.2.1 h1
+    · exact hguard h1.1 h1.2
+    · exact hbit.2.2 h1
+
+/-- "Validation rejects every message whose authenticated content was altered in any bit", for the intended
+variant (a TSIG RR with a non-zero TTL is a format error): no guard on the TTL field. -/
+theorem altered_bit_rejected (H : Hmac) (tbl : List AlgEntry) (w : Bytes) (k : Key) (now now' : Nat) (rm : Bytes)
+    (r : ReadOk) (f : Found) (c : Ctx) (i s p : Nat) (ho : OctetsOk w) (hi : i < 8 * w.length)
+    (h : read H tbl true w (.key k) now rm none false = .ok r) (hf : r.tsig = some f)
+    (hc : f.checked = some (c, f.rd.mac)) (hs : walkTo w = some s) (hp : skipName w w.length (w.length + 1) s = some p)
+    (hunf : ∀ (c' : Ctx) (m' : Bytes), c'.secret = k.secret → verifyWith H c' m' = true → c'.data = c.data ∧ m' = f.rd.mac)
+    (hbit : 16 ≤ i ∧ ¬ (8 * s ≤ i ∧ i < 8 * p) ∧ ¬ (8 * (p + 10) ≤ i ∧ i / 8 + (tsigTail f.rd).length < w.length)) :
+    ∀ r', read H tbl true (flipBit w i) (.key k) now' rm none false = .ok r' → r'.tsig = none :=
+  altered_bit_rejected_partial true H tbl w k now now' rm r f c i s p ho hi h hf hc hs hp hunf hbit (by simp)
+
 /-! ## non-vacuity -/
 
 def okOf {α} : Except Err α → Option α
@@ -307,7 +451,7 @@ def errOf {α} : Except Err α → Option Err
 def exKey : Key := ⟨[[107], []], [1, 2, 3], [[104,109,97,99,45,115,104,97,50,53,54],[]]⟩
 def exBody : Bytes := [0x12, 0x34, 1, 0, 0, 1, 0, 0, 0, 0, 0, 0, 1, 97, 0, 0, 1, 0, 1]
 def exRd : Rdata := ⟨exKey.algorithm, 0, 300, [], 0x1234, 0, []⟩
-def exH : Hmac := fun _ k d => k ++ d.take 2
+def exH : Hmac := fun _ k d => k ++ d    -- a (collision-free) toy
 def exSigned : Bytes × Rdata := match signMessage exH algTable exBody [1, 107, 0] exKey exRd 1000 [] none false with
   | .ok (w, rd', _) => (w, rd')
   | .error _ => ([], exRd)
@@ -317,7 +461,8 @@ ARCOUNT 0, fudge 300, verification 299 s later), and what the model computes on 
 example :
     (⟨exKey.algorithm, 4, 32, 0, 32⟩ : AlgEntry) ∈ algTable ∧ 12 ≤ exBody.length ∧ OctetsOk exBody
       ∧ rd16 exBody 10 + 1 < 65536 ∧ absDiff 1000 1299 ≤ exRd.fudge
-      ∧ exSigned.2.mac = [1, 2, 3, 0x12, 0x34] ∧ exSigned.1.length = exBody.length + 3 + 10 + 13 + 8 + 2 + 5 + 6
+      ∧ exSigned.2.mac.take 5 = [1, 2, 3, 0x12, 0x34]
+      ∧ exSigned.1.length = exBody.length + (tsigRR [1, 107, 0] exSigned.2).length
       ∧ okOf (Tsig.validate exH algTable exSigned.1 exKey exKey.name exSigned.2 1299 [] exBody.length none false)
           = some none := by
   unfold OctetsOk
@@ -336,6 +481,39 @@ example :
           = some .badAlgorithm
       ∧ errOf (Tsig.validate (fun _ _ _ => [9]) algTable w exKey exKey.name { rd with error := 18 } 1300 [] 12 none false)
           = some .peerBadTime := by
+  decide +kernel
+
+/-- what the reader reports on `w` at time `now` when it accepts it as signed: (MAC input, MAC) -/
+def exAccepted (strict : Bool) (w : Bytes) (now : Nat) : Option (Bytes × Bytes) :=
+  match read exH algTable strict w (.key exKey) now [] none false with
+  | .ok r => match r.tsig with
+    | some f => match f.checked with
+      | some (c, m) => some (c.data, m)
+      | none => none
+    | none => none
+  | .error _ => none
+
+/-- the hypotheses of `accepted_carries_valid_mac`, `mac_input_determines_content`, `bitflip_changes_input` are
+met by a concrete message: the reader accepts the message signed above (its TSIG RR starts at 19, the owner name
+ends at 22), an ID bit flip is accepted with the same pair, a flip in the question is rejected. -/
+example :
+    (exAccepted true exSigned.1 1299).isSome = true ∧ walkTo exSigned.1 = some 19
+      ∧ skipName exSigned.1 exSigned.1.length (exSigned.1.length + 1) 19 = some 22 ∧ OctetsOk exSigned.1
+      ∧ exAccepted true (flipBit exSigned.1 3) 1299 = exAccepted true exSigned.1 1299
+      ∧ exAccepted true (flipBit exSigned.1 110) 1299 = none
+      ∧ exAccepted true (flipBit exSigned.1 (8 * 50)) 1299 = none := by
+  unfold OctetsOk
+  decide +kernel
+
+/-- **the recorded finding, in the model of the code as shipped**: bit 215 is the last bit of the TTL field of the
+TSIG RR (octets 26–29) of the genuine message; altering it leaves the message accepted with the very same (MAC
+input, MAC) pair, so no hypothesis about the HMAC can exclude it.  The negation of the unguarded statement for
+`strict = false`; with `strict = true` the same alteration is rejected. -/
+theorem ttl_bit_accepted_asShipped :
+    8 * (22 + 4) ≤ 215 ∧ 215 < 8 * (22 + 8)
+      ∧ (exAccepted false exSigned.1 1299).isSome = true
+      ∧ exAccepted false (flipBit exSigned.1 215) 1299 = exAccepted false exSigned.1 1299
+      ∧ exAccepted true (flipBit exSigned.1 215) 1299 = none := by
   decide +kernel
 
 /-- two request MACs of different length and of equal length (hypothesis of `request_mac_binding`) -/
